@@ -1128,7 +1128,7 @@ def S.adoptSession (s : S) (cfg : Cfg) : S × Except Err (List Warn) :=
   let s := { s with noClient := true, parked := false, waiters := [], lockq := [], early := [], held := none, txs := [], ping := none, conn := none,
                     readConn := false, hadConn := false, link := .pending }
   if cfg.valid.isSome then (s, .error (mkErr ["deny"])) else
-  let outboundKeys := s.core.store.sortedKeys.filter fun k => !(k == Facts.clientIDKey || k / Facts.remoteIDKeyFlag % 2 == 1)
+  let outboundKeys := s.core.store.sortedKeys.filter fun k => !(k == Facts.clientIDKey)   -- every record but the identifier is loaded
   if s.fLoad && !outboundKeys.isEmpty then ({ s with fLoad := false }, .error (mkErr ["store"])) else
   -- one-shot fault: only the first Delete of a corrupt record fails
   let firstCorrupt := outboundKeys.find? fun k => match s.core.store.get k with
